@@ -249,8 +249,23 @@ def run(ctx):
                 ctx.violation("altdec-monotone", f"altDec falls from {a2[i]!r} to {a2[i+1]!r} as the emergence angle rises from {bs[i]!r} to {bs[i+1]!r} (lenDec={l2[i]!r})", {"gamma": g})
         except Exception as e:
             ctx.exception("raises", "EAS.altDec raised on a monotonicity ladder", e, {"gamma": g, "beta": be})
+    # ---- input dtypes: the same kinematics as half / single precision arrays (values exactly representable)
+    b_ = np.array([0.5, 0.25, 0.125, 0.0])
+    g_ = np.array([2000.0, 4096.0, 30000.0, 65504.0])
+    u_ = np.array([0.5, 0.25, 0.75, 0.125])
+    for dt in (np.float16, np.float32):
+        gd = g_.astype(dt)
+        tb64 = np.sqrt(1.0 - 1.0 / gd.astype(np.float64) ** 2)
+        ctx.count("dtype")
+        try:
+            a_d, l_d = (np.asarray(x, dtype=np.float64) for x in eas.altDec(b_.astype(dt), tb64.astype(dt), gd, u_))
+            a_w, l_w = (np.asarray(x, dtype=np.float64) for x in eas.altDec(b_.astype(dt).astype(np.float64), tb64.astype(dt).astype(np.float64), gd.astype(np.float64), u_))
+            if not (np.all(np.abs(l_d - l_w) <= 1e-12 * np.abs(l_w)) and np.all(np.abs(a_d - a_w) <= 1e-9 + 1e-9 * np.abs(a_w))):
+                ctx.violation("dtype", f"EAS.altDec with {np.dtype(dt).name} kinematics gives lenDec {l_d.tolist()}, altDec {a_d.tolist()}; the same numbers as float64 give {l_w.tolist()}, {a_w.tolist()}", {"dtype": np.dtype(dt).name})
+        except Exception as e:
+            ctx.exception("dtype", f"EAS.altDec with {np.dtype(dt).name} kinematics raised", e, {"dtype": np.dtype(dt).name})
     ctx.count("contracts", ncontract["n"])
-    for m in ("plots", "lorentz", "speed", "shower", "energy", "inputs", "lendec", "lendec-internal-generator", "altdec", "monotone", "contracts"):
+    for m in ("dtype", "plots", "lorentz", "speed", "shower", "energy", "inputs", "lendec", "lendec-internal-generator", "altdec", "monotone", "contracts"):
         ctx.require(m)
     return ctx.finish(
         rule="3 table versions x etau_frac {1e-3, .5, 1} x {hostile, random}: logE in [6,12] (incl. exactly 6 and table nodes), beta in [0, 42 deg] incl. 0, exactly 42 deg and table nodes; energy draws through the RNG stub (5e-324 .. 1-1e-15) or the real generator; decay numbers in (0,1] incl. 5e-324 and exactly 1; a case is a distinct (version, frac, logE, beta, E_tau)",
